@@ -1,59 +1,6 @@
-import FormulaicVerif.Proofs.C04Poly
-import FormulaicVerif.Proofs.C04Cat
+import FormulaicVerif.Proofs.C04Dict
 namespace FormulaicVerif.Proofs.C04
 open FormulaicVerif.Model FormulaicVerif.Model.Replay FormulaicVerif.Spec.Replay
-
-/-! ## dictionaries -/
-section dict
-variable {κ σ : Type} [DecidableEq κ]
-
-theorem getKey_setKey_same (m : List (κ × σ)) (k : κ) (s : σ) : getKey (setKey m k s) k = some s := by
-  induction m with
-  | nil => simp [setKey, getKey]
-  | cons a r ih =>
-    obtain ⟨k', s'⟩ := a
-    simp only [setKey]
-    by_cases h : k' = k
-    · simp [h, getKey]
-    · simp [h, getKey, ih]
-
-theorem getKey_setKey_ne (m : List (κ × σ)) (k k' : κ) (s : σ) (h : k' ≠ k) :
-    getKey (setKey m k s) k' = getKey m k' := by
-  induction m with
-  | nil => simp [setKey, getKey, Ne.symm h]
-  | cons a r ih =>
-    obtain ⟨k2, s2⟩ := a
-    simp only [setKey]
-    by_cases h2 : k2 = k
-    · subst h2
-      simp [getKey, Ne.symm h]
-    · simp only [h2, if_false, getKey, ih]
-
-theorem setKey_of_getKey (m : List (κ × σ)) (k : κ) (s : σ) (h : getKey m k = some s) : setKey m k s = m := by
-  induction m with
-  | nil => simp [getKey] at h
-  | cons a r ih =>
-    obtain ⟨k', s'⟩ := a
-    simp only [getKey] at h
-    simp only [setKey]
-    by_cases hk : k' = k
-    · simp only [hk, if_true, Option.some.injEq] at h
-      simp [hk, h]
-    · simp only [hk, if_false] at h
-      simp [hk, ih h]
-
-theorem extends_refl (m : List (κ × σ)) : Extends m m := fun _ _ h => h
-
-theorem extends_trans {a b c : List (κ × σ)} (h1 : Extends a b) (h2 : Extends b c) : Extends a c :=
-  fun k v h => h2 k v (h1 k v h)
-
-theorem extends_setKey (m : List (κ × σ)) (k : κ) (s : σ) (h : getKey m k = none) : Extends m (setKey m k s) := by
-  intro k' v hv
-  by_cases hk : k' = k
-  · subst hk; rw [h] at hv; cases hv
-  · rw [getKey_setKey_ne m k k' s hk]; exact hv
-
-end dict
 
 /-! ## transposition and row selection -/
 
@@ -170,32 +117,69 @@ theorem keyedCols_length {keys : List Field} {rows : List (List Rat)} {kc : List
     intro p hp
     exact (columnsOf_length _ hc).2 _ (List.of_mem_zip hp).2
 
+
+theorem keyedCols_keys {keys : List Field} {rows : List (List Rat)} {kc : List (Field × List Rat)}
+    (h : keyedCols keys rows = .ok kc) : kc.map (·.1) = keys := by
+  simp only [keyedCols] at h
+  cases hc : columnsOf keys.length rows with
+  | error e => simp [hc] at h
+  | ok cs =>
+    simp only [hc, Except.ok.injEq] at h
+    subst h
+    rw [List.map_fst_zip]
+    rw [(columnsOf_length _ hc).1]
+
+theorem keyedCols_count {keys : List Field} {rows : List (List Rat)} {kc : List (Field × List Rat)}
+    (h : keyedCols keys rows = .ok kc) : kc.length = keys.length := by
+  rw [← keyedCols_keys h, List.length_map]
+
+/-! ## extension of recorded states -/
+
+theorem stExt_refl (a : TState) : StExt a a := .inl rfl
+
+theorem stExt_trans {a b c : TState} (h1 : StExt a b) (h2 : StExt b c) : StExt a c := by
+  rcases h1 with rfl | ⟨m, m', rfl, rfl, e1⟩
+  · exact h2
+  · rcases h2 with rfl | ⟨n, n', hn, rfl, e2⟩
+    · exact .inr ⟨m, m', rfl, rfl, e1⟩
+    · cases hn
+      exact .inr ⟨m, n', rfl, rfl, extends_trans e1 e2⟩
+
+/-- only a nested per-key state can be extended -/
+theorem stExt_base {a b : TState} (h : StExt a b) (ha : ∀ m, a ≠ .keyed m) : b = a := by
+  rcases h with rfl | ⟨m, _, rfl, _, _⟩
+  · rfl
+  · exact absurd rfl (ha m)
+
+theorem texends_refl (ts : TStates) : TExtends ts ts := fun _ v h => ⟨v, h, stExt_refl v⟩
+
+theorem texends_trans {a b c : TStates} (h1 : TExtends a b) (h2 : TExtends b c) : TExtends a c := by
+  intro k v hv
+  obtain ⟨v', hv', e1⟩ := h1 k v hv
+  obtain ⟨v'', hv'', e2⟩ := h2 k v' hv'
+  exact ⟨v'', hv'', stExt_trans e1 e2⟩
+
+theorem texends_setKey (ts : TStates) (k : String) (st : TState)
+    (h : ∀ st0, getKey ts k = some st0 → StExt st0 st) : TExtends ts (setKey ts k st) := by
+  intro k' v hv
+  by_cases hk : k' = k
+  · subst hk
+    exact ⟨st, getKey_setKey_same _ _ _, h v hv⟩
+  · exact ⟨v, by rw [getKey_setKey_ne ts k k' st hk]; exact hv, stExt_refl v⟩
+
+theorem complete_not_keyed {p : Params} {tr : Tr} {st : TState} (h : Complete p tr st) :
+    ∀ m, st ≠ .keyed m := by
+  intro m hm
+  subst hm
+  cases tr <;> simp [Complete] at h
+
 /-! ## one stateful call -/
-/-- the call protocol on a recorded complete state, for any lawful transform -/
-theorem call_some {α β σ ε : Type} {t : T α β σ ε} {Good : σ → Prop} (L : Lawful t Good) (st : σ)
-    (hg : Good st) (xs : List α) (out : List β) (st' : σ) (h : t.call (some st) xs = .ok (out, st')) :
-    st' = st ∧ out.length = xs.length ∧ ∀ is, t.call (some st) (select is xs) = .ok (select is out, st) := by
-  have h' : t.run st xs = .ok (out, st') := h
-  obtain ⟨ho, hs⟩ := L.rowwise st xs out st' hg h'
-  exact ⟨hs, by rw [ho]; simp, fun is => run_select L st hg xs out st' h' is⟩
-
-theorem call_none {α β σ ε : Type} {t : T α β σ ε} {Good : σ → Prop} (L : Lawful t Good)
-    (xs : List α) (out : List β) (st : σ) (h : t.call none xs = .ok (out, st)) :
-    Good st ∧ t.call (some st) xs = .ok (out, st) := by
-  simp only [T.call] at h
-  cases hf : t.fit xs with
-  | error e => simp [hf] at h
-  | ok p =>
-    obtain ⟨s, o⟩ := p
-    simp only [hf, Except.ok.injEq, Prod.mk.injEq] at h
-    obtain ⟨rfl, rfl⟩ := h
-    exact ⟨L.fit_good xs s o hf, L.after_fit xs s o hf⟩
-
 /-- a replay of a stateful call on a vector: state unchanged, one output entry per row, commutes
-with row selection -/
+with row selection; the shape of the result is the one the recorded state determines -/
 theorem trCall_replay (tr : Tr) (p : Params) (st : TState) (hc : Complete p tr st) (xs : List Rat)
     (v : Value) (st' : TState) (h : tr.call p (some st) xs = .ok (v, st')) :
-    st' = st ∧ v.Len xs.length ∧ ∀ is, tr.call p (some st) (select is xs) = .ok (v.select is, st) := by
+    st' = st ∧ v.Len xs.length ∧ (∀ is, tr.call p (some st) (select is xs) = .ok (v.select is, st)) ∧
+      resultShape tr p st (some .vec) = some v.shape := by
   cases tr with
   | scale ca sa dd =>
     cases st with
@@ -209,10 +193,12 @@ theorem trCall_replay (tr : Tr) (p : Params) (st : TState) (hc : Complete p tr s
         obtain ⟨rfl, rfl⟩ := h
         obtain ⟨h1, h2, h3⟩ := call_some (scale_lawful p.sqrt ca sa dd) s hc xs out s' hr
         subst h1
-        exact ⟨rfl, h2, fun is => by simp only [h3 is, Value.select]⟩
+        exact ⟨rfl, h2, fun is => by simp only [h3 is, Value.select], rfl⟩
     | poly _ => exact absurd hc (by simp [Complete])
     | bs _ => exact absurd hc (by simp [Complete])
     | cs _ => exact absurd hc (by simp [Complete])
+    | keyed _ => exact absurd hc (by simp [Complete])
+    | arr _ => exact absurd hc (by simp [Complete])
   | poly d raw =>
     cases st with
     | poly s =>
@@ -229,12 +215,16 @@ theorem trCall_replay (tr : Tr) (p : Params) (st : TState) (hc : Complete p tr s
           obtain ⟨rfl, rfl⟩ := h
           obtain ⟨h1, h2, h3⟩ := call_some (poly_lawful p.sqrt d raw) s hc xs rows s' hr
           subst h1
-          refine ⟨rfl, ?_, fun is => ?_⟩
+          refine ⟨rfl, ?_, fun is => ?_, ?_⟩
           · intro q hq; rw [keyedCols_length hk q hq, h2]
           · simp only [h3 is, keyedCols_select hk is, Value.select]
+          · simp only [resultShape, Value.shape, keyedCols_count hk, polyKeys, List.length_map,
+              List.length_range]
     | scale _ => exact absurd hc (by simp [Complete])
     | bs _ => exact absurd hc (by simp [Complete])
     | cs _ => exact absurd hc (by simp [Complete])
+    | keyed _ => exact absurd hc (by simp [Complete])
+    | arr _ => exact absurd hc (by simp [Complete])
   | bs a =>
     cases st with
     | bs s =>
@@ -251,12 +241,15 @@ theorem trCall_replay (tr : Tr) (p : Params) (st : TState) (hc : Complete p tr s
         · rename_i kc hk
           simp only [Except.ok.injEq, Prod.mk.injEq] at h
           obtain ⟨rfl, rfl⟩ := h
-          refine ⟨rfl, ?_, fun is => ?_⟩
+          refine ⟨rfl, ?_, fun is => ?_, ?_⟩
           · intro q hq; rw [keyedCols_length hk q hq, h2]
           · simp only [h3 is, keyedCols_select hk is, Value.select]
+          · simp only [resultShape, Value.shape, keyedCols_keys hk]
     | scale _ => exact absurd hc (by simp [Complete])
     | poly _ => exact absurd hc (by simp [Complete])
     | cs _ => exact absurd hc (by simp [Complete])
+    | keyed _ => exact absurd hc (by simp [Complete])
+    | arr _ => exact absurd hc (by simp [Complete])
   | cs a =>
     cases st with
     | cs s =>
@@ -273,12 +266,15 @@ theorem trCall_replay (tr : Tr) (p : Params) (st : TState) (hc : Complete p tr s
         · rename_i kc hk
           simp only [Except.ok.injEq, Prod.mk.injEq] at h
           obtain ⟨rfl, rfl⟩ := h
-          refine ⟨rfl, ?_, fun is => ?_⟩
+          refine ⟨rfl, ?_, fun is => ?_, ?_⟩
           · intro q hq; rw [keyedCols_length hk q hq, h2]
           · simp only [h3 is, keyedCols_select hk is, Value.select]
+          · simp only [resultShape, Value.shape, keyedCols_keys hk]
     | scale _ => exact absurd hc (by simp [Complete])
     | poly _ => exact absurd hc (by simp [Complete])
     | bs _ => exact absurd hc (by simp [Complete])
+    | keyed _ => exact absurd hc (by simp [Complete])
+    | arr _ => exact absurd hc (by simp [Complete])
 
 /-- a fitting stateful call records a complete state, and replaying that state on the same vector
 gives the same value -/
@@ -339,6 +335,266 @@ theorem trCall_fit (tr : Tr) (p : Params) (xs : List Rat) (v : Value) (st : TSta
         obtain ⟨_, h2⟩ := call_none (cs_lawful a p.quant p.getF p.getQ2) xs rows s hr
         exact ⟨trivial, by simp only [h2, hk]⟩
 
+
+/-- a nested state handed to a transform that receives a vector makes the call fail -/
+theorem trCall_nested_error (tr : Tr) (p : Params) (st : TState) (hn : NestedComplete tr st) (xs : List Rat) :
+    ∃ e, tr.call p (some st) xs = .error e := by
+  cases tr with
+  | scale ca sa dd =>
+    cases st with
+    | keyed m => exact ⟨_, rfl⟩
+    | arr ss => exact ⟨_, rfl⟩
+    | scale _ => simp [NestedComplete] at hn
+    | poly _ => simp [NestedComplete] at hn
+    | bs _ => simp [NestedComplete] at hn
+    | cs _ => simp [NestedComplete] at hn
+  | poly d raw => simp [NestedComplete] at hn
+  | bs a => simp [NestedComplete] at hn
+  | cs a => simp [NestedComplete] at hn
+
+/-! ## the decorator's wrapper on any value -/
+
+theorem select_shape (is : List Nat) (v : Value) : (v.select is).shape = v.shape := by
+  cases v with
+  | vec x => rfl
+  | cols d m cs =>
+    cases d
+    · simp [Value.select, Value.shape, selCols]
+    · simp [Value.select, Value.shape, selCols, List.map_map, Function.comp_def]
+
+theorem readyFor_mono {p : Params} {tr : Tr} {st st' : TState} {sh : Shape} (h : ReadyFor p tr st sh)
+    (hx : StExt st st') : ReadyFor p tr st' sh := by
+  rcases hx with rfl | ⟨m, m', rfl, rfl, he⟩
+  · exact h
+  · cases sh with
+    | vec => exact absurd rfl (complete_not_keyed (show Complete p tr (.keyed m) from h) m)
+    | dict ks =>
+      cases tr with
+      | scale ca sa dd =>
+        intro k hk hh
+        obtain ⟨s, hs, hg⟩ := h k hk hh
+        exact ⟨s, he _ _ hs, hg⟩
+      | poly d raw => exact h
+      | bs a => exact h
+      | cs a => exact h
+    | arr w =>
+      cases tr <;> exact h
+
+/-- **Replay of the wrapper.**  With the recorded state ready for the shape of the argument, the
+wrapper leaves the state unchanged, keeps one entry per row in every column, commutes with row
+selection, and returns a value of the shape the recorded state determines. -/
+theorem wrapper_replay (tr : Tr) (p : Params) (st : TState) (v : Value) (hr : ReadyFor p tr st v.shape)
+    (v2 : Value) (st' : TState) (h : wrapper tr p (some st) v = .ok (v2, st')) (n : Nat) (hl : v.Len n) :
+    st' = st ∧ v2.Len n ∧ (∀ is, wrapper tr p (some st) (v.select is) = .ok (v2.select is, st)) ∧
+      resultShape tr p st (some v.shape) = some v2.shape := by
+  cases v with
+  | vec xs =>
+    have hl' : xs.length = n := hl
+    subst hl'
+    exact trCall_replay tr p st hr xs v2 st' h
+  | cols d md cs =>
+    cases d with
+    | true =>
+      cases tr with
+      | scale ca sa dd =>
+        cases st with
+        | keyed m =>
+          simp only [wrapper, keyedOf] at h ⊢
+          have hp : ∀ q ∈ cs, Field.hidden q.1 = false → ∃ s, getKey m q.1 = some s ∧ ScaleComplete s :=
+            fun q hq hh => hr q.1 (List.mem_map_of_mem hq) hh
+          cases hcd : (scaleT p.sqrt ca sa dd).callDict Field.hidden m cs with
+          | error e => simp [hcd] at h
+          | ok r =>
+            obtain ⟨res, m1⟩ := r
+            simp only [hcd, Except.ok.injEq, Prod.mk.injEq] at h
+            obtain ⟨rfl, rfl⟩ := h
+            obtain ⟨i1, i2⟩ := callDict_replay (scale_lawful p.sqrt ca sa dd) Field.hidden cs m hp res m1 hcd
+            subst i1
+            refine ⟨rfl, ?_, fun is => ?_, ?_⟩
+            · exact callDict_len (scale_lawful p.sqrt ca sa dd) Field.hidden cs m1
+                (fun q hq hh s hs => by
+                  obtain ⟨s', hs', hg⟩ := hp q hq hh
+                  rw [hs] at hs'; cases hs'; exact hg) res m1 hcd n hl
+            · simp only [Value.select, selCols, wrapper, i2 is]
+            · simp only [resultShape, Value.shape, callDict_keys Field.hidden cs m1 res m1 hcd]
+        | scale _ => exact absurd hr (by simp [ReadyFor, Value.shape])
+        | poly _ => exact absurd hr (by simp [ReadyFor, Value.shape])
+        | bs _ => exact absurd hr (by simp [ReadyFor, Value.shape])
+        | cs _ => exact absurd hr (by simp [ReadyFor, Value.shape])
+        | arr _ => exact absurd hr (by simp [ReadyFor, Value.shape])
+      | poly d raw => simp [wrapper] at h
+      | bs a => simp [wrapper] at h
+      | cs a => simp [wrapper] at h
+    | false =>
+      cases tr with
+      | scale ca sa dd =>
+        cases st with
+        | arr ss =>
+          simp only [wrapper, arrOf] at h ⊢
+          obtain ⟨hw, hg⟩ : ss.length = cs.length ∧ ∀ s ∈ ss, ScaleComplete s := hr
+          cases hcc : callCols (scaleT p.sqrt ca sa dd) (some ss) (cs.map (·.2)) with
+          | error e => simp [hcc] at h
+          | ok r =>
+            obtain ⟨outs, ss1⟩ := r
+            simp only [hcc, Except.ok.injEq, Prod.mk.injEq] at h
+            obtain ⟨rfl, rfl⟩ := h
+            obtain ⟨i1, i2, i3, i4, i5⟩ := callCols_replay (scale_lawful p.sqrt ca sa dd) _ outs ss ss1 hg hcc
+            subst i1
+            refine ⟨rfl, ?_, fun is => ?_, ?_⟩
+            · intro q hq
+              have hq2 : q.2 ∈ outs := by
+                have := List.mem_map_of_mem (f := (·.2)) hq
+                rwa [positional_snd] at this
+              exact i4 n (fun c hc => by
+                obtain ⟨q', hq', rfl⟩ := List.mem_map.1 hc
+                exact hl q' hq') q.2 hq2
+            · have hm : (selCols is cs).map (·.2) = (cs.map (·.2)).map (select is) := by
+                simp [selCols, List.map_map, Function.comp_def]
+              simp only [Value.select, wrapper, hm, i5 is, positional_select]
+            · simp only [resultShape, Value.shape, positional_length, i3, List.length_map]
+        | scale _ => exact absurd hr (by simp [ReadyFor, Value.shape])
+        | poly _ => exact absurd hr (by simp [ReadyFor, Value.shape])
+        | bs _ => exact absurd hr (by simp [ReadyFor, Value.shape])
+        | cs _ => exact absurd hr (by simp [ReadyFor, Value.shape])
+        | keyed _ => exact absurd hr (by simp [ReadyFor, Value.shape])
+      | poly d raw => simp [wrapper] at h
+      | bs a => simp [wrapper] at h
+      | cs a => simp [wrapper] at h
+
+/-- **Fit (or refit) of the wrapper, then replay.**  Called without state, or with a state in which
+nothing is half-fitted, the wrapper leaves such a state, which extends the one it found, is ready for
+the shape of the argument, and gives the same value again — also after it has been extended. -/
+theorem wrapper_stable (tr : Tr) (p : Params) (o : Option TState) (v : Value)
+    (ho : ∀ st0, o = some st0 → CompleteAny p tr st0) (v2 : Value) (st : TState)
+    (h : wrapper tr p o v = .ok (v2, st)) :
+    CompleteAny p tr st ∧ (∀ st0, o = some st0 → StExt st0 st) ∧ ReadyFor p tr st v.shape ∧
+      ∀ st', StExt st st' → wrapper tr p (some st') v = .ok (v2, st') := by
+  cases v with
+  | vec xs =>
+    simp only [wrapper] at h ⊢
+    cases o with
+    | none =>
+      obtain ⟨k1, k2⟩ := trCall_fit tr p xs v2 st h
+      refine ⟨.inl k1, (fun _ h0 => by cases h0), k1, fun st' hx => ?_⟩
+      rw [stExt_base hx (complete_not_keyed k1)]
+      exact k2
+    | some st0 =>
+      rcases ho st0 rfl with hc | hn
+      · obtain ⟨k1, _, _, _⟩ := trCall_replay tr p st0 hc xs v2 st h
+        subst k1
+        refine ⟨.inl hc, (fun s h0 => by cases h0; exact stExt_refl _), hc, fun st' hx => ?_⟩
+        rw [stExt_base hx (complete_not_keyed hc)]
+        exact h
+      · obtain ⟨e, he⟩ := trCall_nested_error tr p st0 hn xs
+        rw [he] at h
+        cases h
+  | cols d md cs =>
+    cases d with
+    | true =>
+      cases tr with
+      | scale ca sa dd =>
+        simp only [wrapper] at h
+        -- the nested dictionary the loop starts from, and the goodness of what it holds
+        cases hm0 : keyedOf o with
+        | error e => simp [hm0] at h
+        | ok m0 =>
+        simp only [hm0] at h
+        have hg0 : ∀ k s, getKey m0 k = some s → ScaleComplete s := by
+          cases o with
+          | none =>
+            simp only [keyedOf, Except.ok.injEq] at hm0
+            subst hm0
+            intro k s hk; simp [getKey] at hk
+          | some st0 =>
+            cases st0 with
+            | keyed m =>
+              simp only [keyedOf, Except.ok.injEq] at hm0
+              subst hm0
+              rcases ho _ rfl with hc | hn
+              · simp [Complete] at hc
+              · exact hn
+            | scale _ => simp [keyedOf] at hm0
+            | poly _ => simp [keyedOf] at hm0
+            | bs _ => simp [keyedOf] at hm0
+            | cs _ => simp [keyedOf] at hm0
+            | arr _ => simp [keyedOf] at hm0
+        have ho0 : ∀ st0, o = some st0 → st0 = .keyed m0 := by
+          intro st0 h0
+          subst h0
+          cases st0 with
+          | keyed m => simp only [keyedOf, Except.ok.injEq] at hm0; rw [hm0]
+          | scale _ => simp [keyedOf] at hm0
+          | poly _ => simp [keyedOf] at hm0
+          | bs _ => simp [keyedOf] at hm0
+          | cs _ => simp [keyedOf] at hm0
+          | arr _ => simp [keyedOf] at hm0
+        cases hcd : (scaleT p.sqrt ca sa dd).callDict Field.hidden m0 cs with
+        | error e => simp [hcd] at h
+        | ok r =>
+          obtain ⟨res, m1⟩ := r
+          simp only [hcd, Except.ok.injEq, Prod.mk.injEq] at h
+          obtain ⟨rfl, rfl⟩ := h
+          obtain ⟨i1, i2, i3, i4⟩ := callDict_stable (scale_lawful p.sqrt ca sa dd) Field.hidden cs m0 hg0 res m1 hcd
+          refine ⟨.inr i1, fun st0 h0 => ?_, ?_, fun st' hx => ?_⟩
+          · rw [ho0 st0 h0]
+            exact .inr ⟨m0, m1, rfl, rfl, i2⟩
+          · intro k hk hh
+            obtain ⟨q, hq, rfl⟩ := List.mem_map.1 hk
+            obtain ⟨s, hs⟩ := i3 q hq hh
+            exact ⟨s, hs, i1 _ _ hs⟩
+          · rcases hx with rfl | ⟨m, mX, hm, rfl, he⟩
+            · simp only [wrapper, keyedOf, i4 m1 (extends_refl _)]
+            · cases hm
+              simp only [wrapper, keyedOf, i4 mX he]
+      | poly d raw => simp [wrapper] at h
+      | bs a => simp [wrapper] at h
+      | cs a => simp [wrapper] at h
+    | false =>
+      cases tr with
+      | scale ca sa dd =>
+        simp only [wrapper] at h
+        cases o with
+        | none =>
+          simp only [arrOf] at h
+          cases hcc : callCols (scaleT p.sqrt ca sa dd) none (cs.map (·.2)) with
+          | error e => simp [hcc] at h
+          | ok r =>
+            obtain ⟨outs, ss⟩ := r
+            simp only [hcc, Except.ok.injEq, Prod.mk.injEq] at h
+            obtain ⟨rfl, rfl⟩ := h
+            obtain ⟨i1, i2, i3⟩ := callCols_fit (scale_lawful p.sqrt ca sa dd) _ outs ss hcc
+            refine ⟨.inr i1, (fun _ h0 => by cases h0), ⟨by simpa using i2, i1⟩, fun st' hx => ?_⟩
+            rw [stExt_base hx (fun m hm => by cases hm)]
+            simp only [wrapper, arrOf, i3]
+        | some st0 =>
+          cases st0 with
+          | arr ss0 =>
+            simp only [arrOf] at h
+            have hg0 : ∀ s ∈ ss0, ScaleComplete s := by
+              rcases ho _ rfl with hc | hn
+              · simp [Complete] at hc
+              · exact hn
+            cases hcc : callCols (scaleT p.sqrt ca sa dd) (some ss0) (cs.map (·.2)) with
+            | error e => simp [hcc] at h
+            | ok r =>
+              obtain ⟨outs, ss⟩ := r
+              simp only [hcc, Except.ok.injEq, Prod.mk.injEq] at h
+              obtain ⟨rfl, rfl⟩ := h
+              obtain ⟨i1, i2, _, _, _⟩ := callCols_replay (scale_lawful p.sqrt ca sa dd) _ outs ss0 ss hg0 hcc
+              subst i1
+              refine ⟨.inr hg0, (fun s h0 => by cases h0; exact stExt_refl _), ⟨by simpa using i2, hg0⟩,
+                fun st' hx => ?_⟩
+              rw [stExt_base hx (fun m hm => by cases hm)]
+              simp only [wrapper, arrOf, hcc]
+          | scale _ => simp [arrOf] at h
+          | poly _ => simp [arrOf] at h
+          | bs _ => simp [arrOf] at h
+          | cs _ => simp [arrOf] at h
+          | keyed _ => simp [arrOf] at h
+      | poly d raw => simp [wrapper] at h
+      | bs a => simp [wrapper] at h
+      | cs a => simp [wrapper] at h
+
 /-! ## expressions -/
 theorem numColumn_select {f : Frame} {v : String} {c : List Rat} (h : f.numColumn v = .ok c) (is : List Nat) :
     (f.select is).numColumn v = .ok (select is c) ∧ c.length = f.rows.length := by
@@ -359,13 +615,15 @@ theorem labColumn_select {f : Frame} {v : String} {c : List (Option Contrasts.La
     exact ⟨mapE_select h is, mapE_length h⟩
   · cases h
 
-/-- **Replay of an expression.**  When every call node finds a complete recorded state, evaluating
-the expression leaves the state dictionary unchanged, yields one entry per row, and commutes with
-row selection. -/
+/-- **Replay of an expression.**  When every call node finds a recorded state that is ready for the
+shape of its argument, evaluating the expression leaves the state dictionary unchanged, yields one
+entry per row, commutes with row selection, and gives a value of the shape the recorded states
+determine. -/
 theorem eval_replay (env : Env) (f : Frame) (e : Expr) (ts : TStates) (hr : ExprReady env ts e)
     (v : Value) (ts' : TStates) (h : evalExpr env f e ts = .ok (v, ts')) :
     ts' = ts ∧ v.Len f.rows.length ∧
-      ∀ is, evalExpr env (f.select is) e ts = .ok (v.select is, ts) := by
+      (∀ is, evalExpr env (f.select is) e ts = .ok (v.select is, ts)) ∧
+      shapeOf env ts e = some v.shape := by
   induction e generalizing v ts' with
   | col c =>
     simp only [evalExpr] at h ⊢
@@ -374,7 +632,7 @@ theorem eval_replay (env : Env) (f : Frame) (e : Expr) (ts : TStates) (hr : Expr
     | ok col =>
       simp only [hc, Except.ok.injEq, Prod.mk.injEq] at h
       obtain ⟨rfl, rfl⟩ := h
-      refine ⟨rfl, (numColumn_select hc []).2, fun is => ?_⟩
+      refine ⟨rfl, (numColumn_select hc []).2, fun is => ?_, rfl⟩
       simp only [(numColumn_select hc is).1, Value.select]
   | binc op a c ih =>
     simp only [evalExpr] at h ⊢
@@ -382,13 +640,13 @@ theorem eval_replay (env : Env) (f : Frame) (e : Expr) (ts : TStates) (hr : Expr
     | error x => simp [ha] at h
     | ok r =>
       obtain ⟨va, ts1⟩ := r
-      obtain ⟨h1, h2, h3⟩ := ih hr va ts1 ha
+      obtain ⟨h1, h2, h3, _⟩ := ih hr va ts1 ha
       subst h1
       cases va with
       | vec x =>
         simp only [ha, Except.ok.injEq, Prod.mk.injEq] at h
         obtain ⟨rfl, rfl⟩ := h
-        refine ⟨rfl, by simpa [Value.Len] using h2, fun is => ?_⟩
+        refine ⟨rfl, by simpa [Value.Len] using h2, fun is => ?_, rfl⟩
         simp only [h3 is, Value.select, select_map]
       | cols d m cs => simp [ha] at h
   | bin op a b iha ihb =>
@@ -398,14 +656,14 @@ theorem eval_replay (env : Env) (f : Frame) (e : Expr) (ts : TStates) (hr : Expr
     | error x => simp [ha] at h
     | ok r =>
       obtain ⟨va, ts1⟩ := r
-      obtain ⟨h1, h2, h3⟩ := iha hra va ts1 ha
+      obtain ⟨h1, h2, h3, _⟩ := iha hra va ts1 ha
       subst h1
       simp only [ha] at h
       cases hb : evalExpr env f b ts1 with
       | error x => simp [hb] at h
       | ok r2 =>
         obtain ⟨vb, ts2⟩ := r2
-        obtain ⟨g1, g2, g3⟩ := ihb hrb vb ts2 hb
+        obtain ⟨g1, g2, g3, _⟩ := ihb hrb vb ts2 hb
         subst g1
         simp only [hb] at h
         cases va with
@@ -416,7 +674,7 @@ theorem eval_replay (env : Env) (f : Frame) (e : Expr) (ts : TStates) (hr : Expr
             obtain ⟨rfl, rfl⟩ := h
             have hx : x.length = f.rows.length := h2
             have hy : y.length = f.rows.length := g2
-            refine ⟨rfl, by simp [Value.Len, hx, hy], fun is => ?_⟩
+            refine ⟨rfl, by simp [Value.Len, hx, hy], fun is => ?_, rfl⟩
             simp only [h3 is, g3 is, Value.select, select_zipWith _ _ _ _ (hx.trans hy.symm)]
           | cols d m cs => simp at h
         | cols d m cs => simp at h
@@ -426,7 +684,7 @@ theorem eval_replay (env : Env) (f : Frame) (e : Expr) (ts : TStates) (hr : Expr
     | error x => simp [ha] at h
     | ok r =>
       obtain ⟨va, ts1⟩ := r
-      obtain ⟨h1, h2, h3⟩ := ih hr va ts1 ha
+      obtain ⟨h1, h2, h3, _⟩ := ih hr va ts1 ha
       subst h1
       cases va with
       | vec x =>
@@ -437,37 +695,50 @@ theorem eval_replay (env : Env) (f : Frame) (e : Expr) (ts : TStates) (hr : Expr
           simp only [Except.ok.injEq, Prod.mk.injEq] at h
           obtain ⟨rfl, rfl⟩ := h
           have hx : x.length = f.rows.length := h2
-          refine ⟨rfl, by simp [Value.Len, mapE_length hy, hx], fun is => ?_⟩
+          refine ⟨rfl, by simp [Value.Len, mapE_length hy, hx], fun is => ?_, rfl⟩
           simp only [h3 is, Value.select, mapE_select hy is]
       | cols d m cs => simp [ha] at h
   | call text a ih =>
     simp only [evalExpr] at h ⊢
-    obtain ⟨hra, tr, p, st, hcall, hget, hcomp⟩ := hr
+    obtain ⟨hra, tr, p, st, sh, hcall, hget, hsh, hready⟩ := hr
     cases ha : evalExpr env f a ts with
     | error x => simp [ha] at h
     | ok r =>
       obtain ⟨va, ts1⟩ := r
-      obtain ⟨h1, h2, h3⟩ := ih hra va ts1 ha
+      obtain ⟨h1, h2, h3, h4⟩ := ih hra va ts1 ha
       subst h1
+      rw [hsh] at h4
+      cases h4
       simp only [ha, hcall, hget] at h
-      cases va with
-      | cols d m cs => simp [wrapper, liftT] at h
-      | vec x =>
-        simp only [wrapper] at h
-        cases hw : tr.call p (some st) x with
-        | error x => simp [hw, liftT] at h
-        | ok r2 =>
-          obtain ⟨v2, st2⟩ := r2
-          simp only [hw, liftT, Except.ok.injEq, Prod.mk.injEq] at h
-          obtain ⟨rfl, rfl⟩ := h
-          obtain ⟨k1, k2, k3⟩ := trCall_replay tr p st hcomp x v2 st2 hw
-          subst k1
-          have hx : x.length = f.rows.length := h2
-          refine ⟨setKey_of_getKey _ _ _ hget, by rw [← hx]; exact k2, fun is => ?_⟩
-          simp only [h3 is, hcall, hget, Value.select, wrapper, k3 is, liftT,
-            setKey_of_getKey _ _ _ hget]
+      cases hw : wrapper tr p (some st) va with
+      | error x => simp [hw, liftT] at h
+      | ok r2 =>
+        obtain ⟨v2, st2⟩ := r2
+        simp only [hw, liftT, Except.ok.injEq, Prod.mk.injEq] at h
+        obtain ⟨rfl, rfl⟩ := h
+        obtain ⟨k1, k2, k3, k4⟩ := wrapper_replay tr p st va hready v2 st2 hw f.rows.length h2
+        subst k1
+        refine ⟨setKey_of_getKey _ _ _ hget, k2, fun is => ?_, ?_⟩
+        · simp only [h3 is, hcall, hget, k3 is, liftT, setKey_of_getKey _ _ _ hget]
+        · simp only [shapeOf, hcall, hget, hsh, k4]
 
-theorem exprReady_mono (env : Env) {ts ts' : TStates} (hx : Extends ts ts') (e : Expr)
+/-- the shape the recorded states determine does not change when the dictionary is extended -/
+theorem shapeOf_mono (env : Env) {ts ts' : TStates} (hx : TExtends ts ts') (e : Expr)
+    (h : ExprReady env ts e) : shapeOf env ts' e = shapeOf env ts e := by
+  induction e with
+  | col c => rfl
+  | binc op a c ih => rfl
+  | bin op a b iha ihb => rfl
+  | elem fn a ih => rfl
+  | call text a ih =>
+    obtain ⟨ha, tr, p, st, sh, h1, h2, h3, h4⟩ := h
+    obtain ⟨st', h2', he⟩ := hx _ _ h2
+    simp only [shapeOf, h1, h2, h2', ih ha]
+    rcases he with rfl | ⟨m, m', rfl, rfl, _⟩
+    · rfl
+    · cases tr <;> rfl
+
+theorem exprReady_mono (env : Env) {ts ts' : TStates} (hx : TExtends ts ts') (e : Expr)
     (h : ExprReady env ts e) : ExprReady env ts' e := by
   induction e with
   | col c => trivial
@@ -475,17 +746,19 @@ theorem exprReady_mono (env : Env) {ts ts' : TStates} (hx : Extends ts ts') (e :
   | bin op a b iha ihb => exact ⟨iha h.1, ihb h.2⟩
   | elem fn a ih => exact ih h
   | call text a ih =>
-    obtain ⟨ha, tr, p, st, h1, h2, h3⟩ := h
-    exact ⟨ih ha, tr, p, st, h1, hx _ _ h2, h3⟩
+    obtain ⟨ha, tr, p, st, sh, h1, h2, h3, h4⟩ := h
+    obtain ⟨st', h2', he⟩ := hx _ _ h2
+    exact ⟨ih ha, tr, p, st', sh, h1, h2', by rw [shapeOf_mono env hx a ha]; exact h3,
+      readyFor_mono h4 he⟩
 
-/-- **Fit then replay of an expression.**  Starting from any dictionary of complete states (in
-particular the empty one), an evaluation only adds complete states, leaves every call node ready,
-and re-evaluating under ANY extension of the resulting dictionary gives the same value and leaves
-that dictionary unchanged. -/
+/-- **Fit then replay of an expression.**  Starting from any dictionary in which nothing is
+half-fitted (in particular the empty one), an evaluation only adds such states (or keys of a nested
+state), leaves every call node ready, and re-evaluating under ANY extension of the resulting
+dictionary gives the same value and leaves that dictionary unchanged. -/
 theorem eval_stable (env : Env) (f : Frame) (e : Expr) (ts : TStates) (hsc : StatesComplete env ts)
     (v : Value) (ts1 : TStates) (h : evalExpr env f e ts = .ok (v, ts1)) :
-    StatesComplete env ts1 ∧ Extends ts ts1 ∧ ExprReady env ts1 e ∧
-      ∀ tsX, Extends ts1 tsX → evalExpr env f e tsX = .ok (v, tsX) := by
+    StatesComplete env ts1 ∧ TExtends ts ts1 ∧ ExprReady env ts1 e ∧
+      ∀ tsX, TExtends ts1 tsX → evalExpr env f e tsX = .ok (v, tsX) := by
   induction e generalizing v ts ts1 with
   | col c =>
     simp only [evalExpr] at h
@@ -494,7 +767,7 @@ theorem eval_stable (env : Env) (f : Frame) (e : Expr) (ts : TStates) (hsc : Sta
     | ok col =>
       simp only [hc, Except.ok.injEq, Prod.mk.injEq] at h
       obtain ⟨rfl, rfl⟩ := h
-      exact ⟨hsc, extends_refl _, trivial, fun tsX _ => by simp only [evalExpr, hc]⟩
+      exact ⟨hsc, texends_refl _, trivial, fun tsX _ => by simp only [evalExpr, hc]⟩
   | binc op a c ih =>
     simp only [evalExpr] at h
     cases ha : evalExpr env f a ts with
@@ -528,8 +801,8 @@ theorem eval_stable (env : Env) (f : Frame) (e : Expr) (ts : TStates) (hsc : Sta
           | vec y =>
             simp only [Except.ok.injEq, Prod.mk.injEq] at h
             obtain ⟨rfl, rfl⟩ := h
-            refine ⟨g1, extends_trans h2 g2, ⟨exprReady_mono env g2 a h3, g3⟩, fun tsX hx => ?_⟩
-            simp only [evalExpr, h4 tsX (extends_trans g2 hx), g4 tsX hx]
+            refine ⟨g1, texends_trans h2 g2, ⟨exprReady_mono env g2 a h3, g3⟩, fun tsX hx => ?_⟩
+            simp only [evalExpr, h4 tsX (texends_trans g2 hx), g4 tsX hx]
           | cols d m cs => simp at h
         | cols d m cs => simp at h
   | elem fn a ih =>
@@ -562,49 +835,31 @@ theorem eval_stable (env : Env) (f : Frame) (e : Expr) (ts : TStates) (hsc : Sta
       | some trp =>
         obtain ⟨tr, p⟩ := trp
         simp only [hcall] at h
-        cases va with
-        | cols d m cs => simp [wrapper, liftT] at h
-        | vec x =>
-          simp only [wrapper] at h
-          cases hget : getKey tsa (stateKey env.norm text) with
-          | none =>
-            simp only [hget] at h
-            cases hw : tr.call p none x with
-            | error x => simp [hw, liftT] at h
-            | ok r2 =>
-              obtain ⟨v2, st⟩ := r2
-              simp only [hw, liftT, Except.ok.injEq, Prod.mk.injEq] at h
-              obtain ⟨rfl, rfl⟩ := h
-              obtain ⟨k1, k2⟩ := trCall_fit tr p x v2 st hw
-              have hext := extends_setKey tsa (stateKey env.norm text) st hget
-              refine ⟨?_, extends_trans h2 hext, ⟨exprReady_mono env hext a h3, tr, p, st, hcall,
-                getKey_setKey_same _ _ _, k1⟩, fun tsX hx => ?_⟩
-              · intro k tr' p' st' hc' hg'
-                by_cases hk : k = stateKey env.norm text
-                · subst hk
-                  rw [getKey_setKey_same] at hg'
-                  rw [hcall] at hc'
-                  cases hc'; cases hg'
-                  exact k1
-                · rw [getKey_setKey_ne _ _ _ _ hk] at hg'
-                  exact h1 k tr' p' st' hc' hg'
-              · have hgx : getKey tsX (stateKey env.norm text) = some st := hx _ _ (getKey_setKey_same _ _ _)
-                simp only [evalExpr, h4 tsX (extends_trans hext hx), hcall, hgx, wrapper, k2, liftT,
-                  setKey_of_getKey _ _ _ hgx]
-          | some st0 =>
-            simp only [hget] at h
-            have hc0 := h1 _ tr p st0 hcall hget
-            cases hw : tr.call p (some st0) x with
-            | error x => simp [hw, liftT] at h
-            | ok r2 =>
-              obtain ⟨v2, st⟩ := r2
-              simp only [hw, liftT, Except.ok.injEq, Prod.mk.injEq] at h
-              obtain ⟨rfl, rfl⟩ := h
-              obtain ⟨k1, _, _⟩ := trCall_replay tr p st0 hc0 x v2 st hw
-              subst k1
-              rw [setKey_of_getKey _ _ _ hget]
-              refine ⟨h1, h2, ⟨h3, tr, p, st, hcall, hget, hc0⟩, fun tsX hx => ?_⟩
-              have hgx : getKey tsX (stateKey env.norm text) = some st := hx _ _ hget
-              simp only [evalExpr, h4 tsX hx, hcall, hgx, wrapper, hw, liftT, setKey_of_getKey _ _ _ hgx]
+        cases hw : wrapper tr p (getKey tsa (stateKey env.norm text)) va with
+        | error x => simp [hw, liftT] at h
+        | ok r2 =>
+          obtain ⟨v2, st⟩ := r2
+          simp only [hw, liftT, Except.ok.injEq, Prod.mk.injEq] at h
+          obtain ⟨rfl, rfl⟩ := h
+          obtain ⟨k1, k2, k3, k4⟩ := wrapper_stable tr p _ va
+            (fun st0 h0 => h1 _ tr p st0 hcall h0) v2 st hw
+          have hext : TExtends tsa (setKey tsa (stateKey env.norm text) st) := texends_setKey _ _ _ k2
+          have hra : ExprReady env (setKey tsa (stateKey env.norm text) st) a := exprReady_mono env hext a h3
+          have hsh : shapeOf env (setKey tsa (stateKey env.norm text) st) a = some va.shape :=
+            (eval_replay env f a _ hra va _ (h4 _ hext)).2.2.2
+          refine ⟨?_, texends_trans h2 hext, ⟨hra, tr, p, st, va.shape, hcall, getKey_setKey_same _ _ _, hsh, k3⟩,
+            fun tsX hx => ?_⟩
+          · intro k tr' p' st' hc' hg'
+            by_cases hk : k = stateKey env.norm text
+            · subst hk
+              rw [getKey_setKey_same] at hg'
+              rw [hcall] at hc'
+              cases hc'; cases hg'
+              exact k1
+            · rw [getKey_setKey_ne _ _ _ _ hk] at hg'
+              exact h1 k tr' p' st' hc' hg'
+          · obtain ⟨st', hgx, hsx⟩ := hx _ _ (getKey_setKey_same _ _ _)
+            simp only [evalExpr, h4 tsX (texends_trans hext hx), hcall, hgx, k4 st' hsx, liftT,
+              setKey_of_getKey _ _ _ hgx]
 
 end FormulaicVerif.Proofs.C04
